@@ -41,6 +41,38 @@ FILES = {
     "longline.slice": "module M\nstruct S { " + " ".join("f%d: bool" % i for i in range(400)) + " }\n",
     "preproc.slice": "#if X && (Y || !Z)\nmodule M\n#else\nmodule N\n#endif\nstruct S {}\n#if\n",
     "wrongext.txt": "module M\n",
+    # regression inputs of repaired defects
+    "shadow_a.slice": "module \\int32\nstruct S {}\n",                                  # D-01b
+    "shadow_b.slice": "module M\nstruct T { a: int32 }\n",
+    "uaf.slice": "module M enum E { A(\n/// @foo\nx: int32) B(\n/// @foo\ny: int32) }}\n",   # D-01c
+    "uafp1.slice": "module M\ninterface N {\n    I(op: int32) foo %\n}\n",
+    "uafp2.slice": "module M::N\ninterface I {\n    /// @foo\n    op() bar %\n}\n",
+    "mixedwidth.slice": "module M\n/// a\n///\u3000x\n///\u00a0\u00a0y\nstruct S {}\n",     # D-16a
+    "inheritloop.slice": "module M\ninterface A : B {}\ninterface B : A {}\n",          # D-05a
+    "aliasanon.slice": "module M\ntypealias A = Sequence<A>\n",                         # D-05c
+    "basetype.slice": "module M\ninterface I : Sequence<bool> {}\nenum E : Sequence<bool> { A }\n",   # D-01a
+    "ifacedag26.slice": "module M\ninterface A0 {}\ninterface B0 {}\n" + "".join(
+        "interface A%d : A%d, B%d {}\ninterface B%d : A%d, B%d {}\n" % (i, i - 1, i - 1, i, i - 1, i - 1) for i in range(1, 26)),   # D-05e
+    "dense28.slice": "module M\n" + "".join(
+        "struct S%d { %s}\n" % (i, "".join("f%d: S%d " % (j, j) for j in range(i + 1, 28))) for i in range(28)),             # D-05b
+}
+
+# inputs far beyond 8 KiB whose nesting depth the recursive descent of the compiler follows (open findings D-01d..g):
+# the debug binary overflows its 8 MiB stack on each of them
+DEEP = {
+    "known-d01d-deep-type-nesting.slice": "module M\nstruct S { a: " + "Sequence<" * 8000 + "int32" + ">" * 8000 + " }\n",
+    "known-d01e-deep-preprocessor-expression.slice": "#if " + "(" * 25000 + "A" + ")" * 25000 + "\nmodule M\n#endif\n",
+    "known-d01f-deep-conditional-nesting.slice": "#if A\n" * 15000 + "module M\n" + "#endif\n" * 15000,
+    "known-d01g-deep-compact-key-chain.slice": "module M\n" + "".join("compact struct S%d { a: S%d }\n" % (i, i + 1) for i in range(1500))
+                                               + "compact struct S1500 { a: int32 }\nstruct D { d: Dictionary<S0, int32> }\n",
+}
+# the same shapes at depths that stay within 8 KiB must simply compile
+SHALLOW = {
+    "nest-types-800.slice": "module M\nstruct S { a: " + "Sequence<" * 800 + "int32" + ">" * 800 + " }\n",
+    "nest-parens-4000.slice": "#if " + "(" * 4000 + "A" + ")" * 4000 + "\nmodule M\n#endif\n",
+    "nest-if-600.slice": "#if A\n" * 600 + "module M\n" + "#endif\n" * 600,
+    "nest-compact-key-250.slice": "module M\n" + "".join("compact struct S%d { a: S%d }\n" % (i, i + 1) for i in range(250))
+                                  + "compact struct S250 { a: int32 }\nstruct D { d: Dictionary<S0, int32> }\n",
 }
 BINARY = {"garbage.slice": b"\xff\xfe\x00module M\n\xc3\x28", "nul.slice": b"module M\nstruct S\x00 {}\n"}
 
@@ -48,7 +80,12 @@ FILE_SETS = [["valid.slice"], ["warn.slice"], ["syntax.slice"], ["attr.slice"], 
              ["rule.slice"], ["empty.slice"], ["comment.slice"], ["fileattr.slice"], ["onlymodule.slice"], ["nomodule.slice"],
              ["crlf.slice"], ["bom.slice"], ["longline.slice"], ["preproc.slice"], ["wrongext.txt"], ["garbage.slice"], ["nul.slice"],
              ["missing.slice"], ["."], [], ["valid.slice", "valid.slice"], ["valid.slice", "empty.slice", "warn.slice"],
-             ["empty.slice", "comment.slice"], ["valid.slice", "./valid.slice"], ["onlymodule.slice", "valid.slice"]]
+             ["empty.slice", "comment.slice"], ["valid.slice", "./valid.slice"], ["onlymodule.slice", "valid.slice"],
+             ["shadow_a.slice", "shadow_b.slice"], ["shadow_b.slice", "shadow_a.slice"], ["uaf.slice"], ["uafp1.slice", "uafp2.slice"],
+             ["uaf.slice", "valid.slice", "warn.slice"], ["mixedwidth.slice"], ["inheritloop.slice"], ["aliasanon.slice"], ["basetype.slice"],
+             ["ifacedag26.slice"], ["dense28.slice"]] + [[n] for n in SHALLOW]
+
+DEEP_OPTION_SETS = [[], ["--dry-run"], ["-D", "A"]]
 
 OPTION_SETS = [
     [], ["--dry-run"], ["--diagnostic-format", "json"], ["--diagnostic-format", "JSON", "--disable-color"], ["--diagnostic-format="],
@@ -64,6 +101,9 @@ GENERATOR = "#!/bin/sh\ncat > /dev/null\nprintf '\\000\\000'\n"
 
 def materialise(root):
     for name, text in FILES.items():
+        with open(os.path.join(root, name), "w", encoding="utf-8") as f:
+            f.write(text)
+    for name, text in list(DEEP.items()) + list(SHALLOW.items()):
         with open(os.path.join(root, name), "w", encoding="utf-8") as f:
             f.write(text)
     for name, data in BINARY.items():
@@ -117,6 +157,12 @@ def run(ctx):
         chosen = [(i, j) for (i, j) in product if (i + 3 * j) % 4 == seed % 4 or i < 2 or j < 2]
     for (i, j) in chosen:
         scenarios.append((FILE_SETS[i], OPTION_SETS[j]))
+    # the memory-unsafe orphaned-member defect crashed only in some runs: repeat its scenarios
+    for _ in range(6 if tier == "thorough" else 3):
+        scenarios += [(["uaf.slice"], []), (["uafp1.slice", "uafp2.slice"], []), (["uaf.slice"], ["--diagnostic-format", "json"])]
+    for name in DEEP:
+        for o in DEEP_OPTION_SETS:
+            scenarios.append(([name], o))
     root = tempfile.mkdtemp(prefix="c01-", dir="/var/tmp")
     families, samples, nontrivial = {}, [], set()
     try:
